@@ -54,6 +54,14 @@ Theorem C02_transitive_downstream : forall c : cfg, norepeat c ->
 Proof. exact transitive_downstream. Qed.
 Print Assumptions C02_transitive_downstream.
 
+(* Containment, the converse direction: nothing outside the downstream set is cut - a step ends canceled only if one of
+   its dependencies is blocking, and ends skipped with its own precondition met only then. *)
+Theorem C02_cut_only_downstream : forall c : cfg, norepeat c ->
+  forall s, Reach c s -> quiet s -> pc s = LDone -> forall i, i < nsteps c ->
+  (st (nd s i) = NCancel \/ (st (nd s i) = NSkipped /\ pre (steps c i) = true)) -> blocked c s i = true.
+Proof. exact cut_only_downstream. Qed.
+Print Assumptions C02_cut_only_downstream.
+
 (* Non-vacuity.  (1) A run with every kind of outcome reaches Done quietly: a fails twice (limit 1) and blocks b
    (canceled); c's precondition is unmet (skipped) and without continueOn.skipped makes d skipped; e finishes.
    (2) The diamond run with one retry finishes everywhere.  Both satisfy every premise of the theorems. *)
